@@ -9,6 +9,7 @@ import (
 	"fmt"
 	"math/big"
 	"os"
+	"runtime/debug"
 	"sort"
 	"time"
 
@@ -34,6 +35,7 @@ import (
 	"github.com/aergoio/aergo/v2/types/message"
 	"github.com/aergoio/aergo/v2/zz_verif/simclock"
 	"github.com/aergoio/aergo/v2/zz_verif/simdisk"
+	"github.com/aergoio/aergo/v2/zz_verif/simgo"
 	"github.com/btcsuite/btcd/btcec/v2"
 	"github.com/libp2p/go-libp2p/core/crypto"
 )
@@ -152,6 +154,7 @@ type Node struct {
 	// DeferHandBack keeps MemPoolPut hand-backs queued until DeliverHandBack.
 	DeferHandBack bool
 	Up            bool
+	Wedged        bool // a delivery never returned (see AddBlock)
 	sysctx        system.VerifCtx
 	dpctx         dpos.VerifCtx
 	Consensus     string // "dpos" or "permissive"
@@ -290,6 +293,11 @@ func (n *Node) Recover() (err error) {
 
 // Stop releases goroutines of the current service instances (process exit).
 func (n *Node) Stop() {
+	if n.Wedged {
+		n.Up = false
+		n.CS, n.MP, n.DP = nil, nil, nil
+		return
+	}
 	if n.CS != nil {
 		func() {
 			defer func() { _ = recover() }()
@@ -459,14 +467,53 @@ func (n *Node) Generate(ctx context.Context, ts time.Time) (blk *types.Block, bs
 }
 
 // AddBlock delivers a block from the network (validator path).
+//
+// Bounded liveness: processing one block takes micro- to milliseconds; a delivery that has not
+// returned after HangAfter of real time is a node that waits for something that will never come
+// (e.g. a verification result nobody sends). That is reported as a panic of the delivery ("hung"),
+// which every world already treats as the death of the node under test; the node is marked Wedged
+// and is never stopped (its goroutines are leaked inside the simulator process). The bound is real
+// time on purpose: it only ever fires on an infinite wait, and a replay hangs in the same place.
 func (n *Node) AddBlock(b *types.Block, peer types.PeerID) (err error) {
 	cp := CloneBlock(b)
-	n.Do(func() {
-		defer n.CS.VerifQuiesce()
-		err = n.CS.VerifAddBlock(cp, nil, peer)
-	})
+	done := make(chan interface{}, 1)
+	go func() {
+		defer func() {
+			if r := recover(); r != nil {
+				done <- Rethrown{Val: r, Stack: string(debug.Stack())}
+				return
+			}
+			done <- nil
+		}()
+		n.Do(func() {
+			defer n.CS.VerifQuiesce()
+			err = n.CS.VerifAddBlock(cp, nil, peer)
+		})
+	}()
+	select {
+	case p := <-done:
+		if p != nil {
+			panic(p)
+		}
+	case <-time.After(HangAfter):
+		n.Wedged = true
+		simgo.Poisoned = "a block delivery hung"
+		panic(fmt.Sprintf("the node hung: the delivery of block %d did not return within %s (code under test waits forever)", b.BlockNo(), HangAfter))
+	}
 	return
 }
+
+// Rethrown carries a panic of the delivery goroutine (with the stack it was raised on) to the caller.
+type Rethrown struct {
+	Val   interface{}
+	Stack string
+}
+
+func (r Rethrown) String() string   { return fmt.Sprint(r.Val) }
+func (r Rethrown) SUTStack() string { return r.Stack }
+
+// HangAfter is the real-time bound after which a block delivery counts as hung.
+var HangAfter = 45 * time.Second
 
 // CloneBlock deep-copies a block through its wire encoding.
 func CloneBlock(b *types.Block) *types.Block {
